@@ -1819,6 +1819,13 @@ func resolveIndex(v, index reflect.Value, indexAsStr string) (reflect.Value, err
 			ptr = ptr.Addr()
 		}
 		if method := ptr.MethodByName(indexAsStr); method.IsValid() {
+			if isNil && ptr.Kind() == reflect.Ptr {
+				if _, onValue := ptr.Type().Elem().MethodByName(indexAsStr); onValue {
+					// a method with a value receiver needs the value the nil pointer does not point to
+					// (methods with pointer receivers may well be prepared for nil)
+					return reflect.Value{}, fmt.Errorf("nil pointer evaluating %s.%s", v.Type(), indexAsStr)
+				}
+			}
 			return method, nil
 		}
 	}
